@@ -9,7 +9,9 @@ from selftest import runner
 src = read_sources("/repo")
 props = ["C%02d" % i for i in range(1, 21)]
 root = sys.argv[1]
-seeds = sorted(glob.glob(os.path.join(root, "C*", "m*", "patch.diff")))
+pat = sys.argv[2] if len(sys.argv) > 2 else "C*/m*"
+benign = "--benign" in sys.argv
+seeds = sorted(glob.glob(os.path.join(root, pat, "patch.diff")))
 jobs = []
 for s in seeds:
     sid = "/".join(s.split("/")[-3:-1])
@@ -26,4 +28,8 @@ for sid in sorted(mat):
     skip = [p for p in props if mat[sid][p][2] == "skipped"]
     own = sid.split("/")[0]
     flag = "" if own in det else ("  <-- not by own check" if det else "  <== MISSED")
+    if benign:
+        flag = "  <== FALSE ALARM: " + "; ".join("%s %s" % (p, mat[sid][p][3][:110]) for p in det) if det else ""
+        if err:
+            flag += "  [exit 2: " + "; ".join("%s %s" % (p, mat[sid][p][3][:90]) for p in err) + "]"
     print("%-8s detected_by=%-28s%s%s%s" % (sid, ",".join(det) or "-", (" err=" + ",".join(err)) if err else "", " SKIPPED" if skip else "", flag))
